@@ -76,7 +76,11 @@ Definition dstep (s : dst) (l : dlabel) : option dst :=
           end
       | _ => None end
   | WorkerTake i => match d_lpc s, nth i (d_workers s) WDead with
-      | LSending, WIdle => Some (mkdst LIdle (d_due s) (upd i WBusy (d_workers s)) (d_spawned s) (d_running s) (S (d_inflight s)) (d_wg s) false)
+      | LSending, WIdle =>
+          if worker_runs_execute_with_retries && worker_selects_done_and_dispatch
+          then Some (mkdst LIdle (d_due s) (upd i WBusy (d_workers s)) (d_spawned s) (d_running s) (S (d_inflight s)) (d_wg s) false)
+          else (* the worker hands the job to yet another goroutine and is free again at once *)
+               Some (mkdst LIdle (d_due s) (d_workers s) (d_spawned s) (S (d_running s)) (S (d_inflight s)) (S (d_wg s)) false)
       | _, _ => None end
   | WorkerEnd i o => match nth i (d_workers s) WDead with
       | WBusy => if survives o
